@@ -462,7 +462,61 @@ func (c *bCombo) check(s *Solver, extra ...*Term) Result {
 }
 
 // order returns a witness interleaving (after a Sat check kept open by caller).
+// gateAtomic: between passing one of its gates (user events) and reaching its
+// next one a thread is not interrupted by events of other threads. A witness
+// satisfying this can be enforced natively by holding threads at their gates.
+func (c *bCombo) gateAtomic() []*Term {
+	tc := c.tc
+	var out []*Term
+	for i, t := range c.tr {
+		// blocks: [gate k, last kept event before the next gate]
+		type blk struct{ from, to int }
+		var blocks []blk
+		cur := -1
+		last := -1
+		for k, e := range t.Events {
+			if c.T[i][k] == nil {
+				continue
+			}
+			if e.Kind == "user" {
+				if cur >= 0 && last > cur {
+					blocks = append(blocks, blk{cur, last})
+				}
+				cur = k
+			}
+			last = k
+		}
+		if cur >= 0 && last > cur {
+			blocks = append(blocks, blk{cur, last})
+		}
+		for _, b := range blocks {
+			for j := range c.tr {
+				if j == i {
+					continue
+				}
+				for l := range c.tr[j].Events {
+					if c.T[j][l] == nil {
+						continue
+					}
+					te := c.ts(j, l)
+					inside := tc.And(c.lt(c.ts(i, b.from), te), c.lt(te, c.ts(i, b.to)))
+					out = append(out, tc.Implies(tc.And(c.exec(j, l), c.exec(i, b.to)), tc.Not(inside)))
+				}
+			}
+		}
+	}
+	return out
+}
+
 func (c *bCombo) witness(s *Solver, extra ...*Term) []string {
+	// prefer a witness that switches threads only at gates (replayable by gating)
+	if w := c.witness1(s, append(append([]*Term{}, extra...), c.gateAtomic()...)...); w != nil {
+		return w
+	}
+	return c.witness1(s, extra...)
+}
+
+func (c *bCombo) witness1(s *Solver, extra ...*Term) []string {
 	s.Push()
 	defer s.Pop()
 	for _, b := range c.base {
@@ -575,7 +629,26 @@ func phaseB(l *Loaded, res *HarnessResult, names []string, traces [][]*ThreadTra
 		solver.Close()
 	}()
 	idx := make([]int, len(traces))
+	for i := range idx {
+		// debugging aid: start the enumeration at a given combination
+		if v, ok := params[fmt.Sprintf("combo%d", i)]; ok && v < len(traces[i]) {
+			idx[i] = v
+		}
+	}
 	ncombo := 0
+	nsolved := 0
+	// two passes over the combinations: first those in which some thread ends
+	// blocked (dead-lock candidates), then the complete ones; each pass has the
+	// combination budget to itself
+	pass := 1
+	passOf := func() int {
+		for i := range traces {
+			if traces[i][idx[i]].Status != "done" {
+				return 1
+			}
+		}
+		return 2
+	}
 	var curCombo *bCombo
 	addViol := func(label, msg string, trace []string) {
 		res.Asserts++
@@ -605,6 +678,15 @@ func phaseB(l *Loaded, res *HarnessResult, names []string, traces [][]*ThreadTra
 	}
 	for {
 		// ---- one combination ----
+		if passOf() != pass {
+			if !nextCombo(idx, traces) {
+				if pass == 2 {
+					break
+				}
+				pass, nsolved = 2, 0
+			}
+			continue
+		}
 		c := &bCombo{tc: tc, names: names}
 		curCombo = c
 		for i := range traces {
@@ -630,6 +712,8 @@ func phaseB(l *Loaded, res *HarnessResult, names []string, traces [][]*ThreadTra
 		rfOK := c.rfMatch()
 		if !rfOK {
 			res.Reached["combination-rf-mismatch"]++
+		} else {
+			nsolved++
 		}
 		if rfOK {
 			// consistency of the complete combination (all events executed)
@@ -724,21 +808,34 @@ func phaseB(l *Loaded, res *HarnessResult, names []string, traces [][]*ThreadTra
 			}
 		} // rfOK
 		// next combination
-		k := len(idx) - 1
-		for k >= 0 {
-			idx[k]++
-			if idx[k] < len(traces[k]) {
+		more := nextCombo(idx, traces)
+		if !more {
+			if pass == 2 {
 				break
 			}
-			idx[k] = 0
-			k--
+			pass, nsolved = 2, 0
+			continue
 		}
-		if k < 0 {
-			break
+		maxCombos := 600
+		if v, ok := params["max_combos"]; ok {
+			maxCombos = v
 		}
-		if ncombo > 20000 {
-			res.EngineErrors["too many trace combinations"]++
-			break
+		if nsolved >= maxCombos || ncombo > 200000 {
+			total := 1
+			for _, tt := range traces {
+				total *= len(tt)
+			}
+			if res.Undecided == nil {
+				res.Undecided = map[string]int{}
+			}
+			res.Undecided[fmt.Sprintf("combination budget (pass %d): %d of %d trace combinations examined (%d decided by the solver in this pass)", pass, ncombo, total, nsolved)]++
+			if pass == 2 {
+				break
+			}
+			pass, nsolved = 2, 0
+			for i := range idx {
+				idx[i] = 0
+			}
 		}
 	}
 	res.Reached["combinations"] = ncombo
@@ -758,6 +855,21 @@ func phaseB(l *Loaded, res *HarnessResult, names []string, traces [][]*ThreadTra
 			}
 		}
 	}
+}
+
+// nextCombo advances idx to the next combination (last thread fastest); false
+// once it wrapped around to the first.
+func nextCombo(idx []int, traces [][]*ThreadTrace) bool {
+	k := len(idx) - 1
+	for k >= 0 {
+		idx[k]++
+		if idx[k] < len(traces[k]) {
+			return true
+		}
+		idx[k] = 0
+		k--
+	}
+	return false
 }
 
 // checkDeadlock: is there a consistent partial execution in which every
